@@ -282,6 +282,25 @@ struct ClassCompiler {
     has_superclass: bool,
 }
 
+/// Verification hooks (feature `verif_hooks`): count of compile errors actually recorded.
+#[cfg(feature = "verif_hooks")]
+pub mod verif {
+    use std::cell::Cell;
+
+    thread_local! {
+        static ERRORS_RECORDED: Cell<u64> = Cell::new(0);
+    }
+
+    pub(super) fn bump_error_count() {
+        ERRORS_RECORDED.with(|c| c.set(c.get() + 1));
+    }
+
+    /// Number of error messages recorded by `error_at` since the last call.
+    pub fn take_error_count() -> u64 {
+        ERRORS_RECORDED.with(|c| c.replace(0))
+    }
+}
+
 pub fn compile(
     vm: &mut Vm,
     source: String,
@@ -1340,6 +1359,8 @@ impl<'a> Parser<'a> {
 
         write!(error_string, ": {}", message).unwrap();
         self.errors.borrow_mut().push(error_string);
+        #[cfg(feature = "verif_hooks")]
+        verif::bump_error_count();
     }
 
     fn compiler_error(&mut self, error: CompilerError) {
